@@ -10,6 +10,7 @@ import (
 func extraTables(v *bytes.Buffer, repo string, kmd *pkgFiles) {
 	writeTable(v, "profile_store_sites", "(function, callee, class of the user-name argument, argument) of every profile-store call in cmd/keymasterd; class: authenticated | parameter | all | request", 4, profileStoreSites(kmd))
 	writeTable(v, "raw_html_sinks", "(function, class, expression) of every conversion to template.HTML in cmd/keymasterd; class: escaped | base64 | literal | raw", 3, rawHTMLSinks(kmd))
+	writeTable(v, "direct_markup_writes", "(function, class, call) of every fmt.Fprint*/io.WriteString/Write call in cmd/keymasterd whose string literals contain '<'; class: literal | with-args", 3, directMarkupWrites(kmd))
 	c20Tables(v, repo, kmd)
 	c19Tables(v, repo, kmd)
 	writeTable(v, "shared_accesses", "(function, map, kind, class, mutex held) of every access to localAuthData / vipPushCookie / pendingOauth2 / totpLocalRateLimit in non-test files of cmd/keymasterd (locks.go)", 5, sharedAccesses(kmd))
